@@ -58,6 +58,7 @@ fn main() {
                 "c16" => checks::c16::replay(&w.extra),
                 "c18" => checks::c18::replay(&w.extra),
                 "c19" => checks::c19::replay(&w.extra),
+                "c19text" => checks::fuzzstage::replay_c19text(&w.extra),
                 "c10" => checks::c10::replay(&w.extra, w.schema_sdl.as_deref()),
                 "c15" => checks::c15::replay(w.case.as_ref().expect("witness without case"), &w.extra),
                 "c21" => checks::c21::replay(w.case.as_ref().expect("witness without case")),
@@ -125,6 +126,8 @@ fn main() {
                 "C09" => checks::c09::run(&mut report, seed, cases),
                 "C22" => checks::c22::run(&mut report, seed, cases),
                 "C27-export" => checks::c27::run(&mut report, seed, cases, &arg_val(&args, "--export").expect("--export")),
+                "fuzz-corpus" => checks::fuzzstage::write_corpus(&mut report, &arg_val(&args, "--target").expect("--target"), seed, &arg_val(&args, "--outdir").expect("--outdir")),
+                "fuzz-triage" => checks::fuzzstage::triage(&mut report, &arg_val(&args, "--target").expect("--target"), &arg_val(&args, "--dir").expect("--dir")),
                 "C26-gen" => checks::c26::run(&mut report, seed, cases, &arg_val(&args, "--outdir").expect("--outdir")),
                 "C20" => checks::c20::run(&mut report, seed, cases),
                 "C25" => checks::c25::run(&mut report, seed, cases),
